@@ -113,6 +113,8 @@ SHAPES = {
     "union": ["struct", [["union", [["varr", "u8", "n"], ["farr", "u16", "m"], "bool"]], "u8"]],
     "delimited": ["struct", ["u3", ["delim", ["struct", ["u8"]], "n8"], ["varr", ["delim", ["struct", ["u8"]], "n8"], "m"], "u8"]],
     "farr-composite": ["struct", [["farr", ["struct", ["u3", "u8"]], "n"], "u7"]],
+    # element lengths {8, 24, 40, 56}: the residues mod 32 cycle ({8,24}, {0,16}, ...) and never saturate
+    "farr-varcomposite": ["struct", [["farr", ["struct", [["varr", "u16", 3]]], "n"], "u8"]],
     "mixed": ["struct", [["varr", "u3", "n"], "u5", ["varr", ["struct", ["bool"]], "n"], ["farr", "u24", "m"]]],
     "many-subbyte": ["struct", [["varr", "bool", "n"], ["varr", "u3", "n"], ["varr", "u5", "m"], ["varr", "u7", "n"],
                                 ["varr", "bool", "m"], ["varr", "u3", "m"], "u5"]],
